@@ -29,6 +29,10 @@
      big    declared length around and above 2^16 (third header byte non-zero): a literal
             run and one maximal short-form reference producing 0xFFFF, 0x10000, 0x10001
             (thorough also 0x20304) bytes
+     ext    LZ11 streams with the 32-bit extended size header declaring 2^24, 2^24+1..3, 2^25+5,
+            2^24+2^16 bytes: 0..3 literals, then a reference before the start of the output in
+            each of the three layouts (displacement produced+1, 100, 4096), or nothing more
+            (truncation); bare and wrapped.  The verdict is open (Ok or Err), a panic is not.
      rand   token sequences read from IOEnv.TOKENS (seeded random, written by the
             harness: lengths log-uniform over the whole range of the format,
             displacements anywhere in 1..min(produced,4096), several references per
@@ -79,7 +83,7 @@ Toks == IF "TOKENS" \in DOMAIN IOEnv THEN ndJsonDeserialize(IOEnv.TOKENS) ELSE <
 
 \* GEN_FAM selects one family (the check may run the families as separate TLC processes)
 Fams == IF "GEN_FAM" \in DOMAIN IOEnv THEN {IOEnv.GEN_FAM}
-        ELSE {"small", "group", "edge", "nibble", "window", "big", "fixed"} \cup (IF Len(Toks) > 0 THEN {"rand"} ELSE {})
+        ELSE {"small", "group", "edge", "nibble", "window", "big", "ext", "fixed"} \cup (IF Len(Toks) > 0 THEN {"rand"} ELSE {})
 
 Init == /\ fam \in Fams
         /\ IF fam = "rand"
@@ -231,5 +235,19 @@ EmitFixed ==
   /\ Line("zero", <<F.type, 0, 0, 0, 0, 0, 0, 0>>)
   /\ Line("zero", <<F.type, 0, 0, 0, 2, 0, 0, 0, 0, A, B>>)
 
-Emit == IF fam = "fixed" THEN (ts = <<>> => EmitFixed) ELSE EmitSeq
+\* extended (32-bit) size header, little-endian size bytes given directly (sizes >= 2^24)
+ExtSizes == { <<0, 0, 0, 1>>, <<1, 0, 0, 1>>, <<2, 0, 0, 1>>, <<3, 0, 0, 1>>, <<5, 0, 0, 2>>, <<0, 0, 1, 1>> }
+EmitExt ==
+  \A sz \in ExtSizes, k \in 0..3 :
+    LET lits == [i \in 1..k |-> Lit(IF i % 2 = 1 THEN A ELSE B)]
+        hdr  == <<LZ11.type, 0, 0, 0>> \o sz
+    IN /\ Line("exttrunc", hdr \o EncGroups(LZ11, lits))
+       /\ \A l \in {3, 17, 273}, dd \in {k + 1, 100, 4096} :
+             LET s == hdr \o EncGroups(LZ11, lits \o <<Ref(l, dd)>>) IN
+             /\ Line("extbefore", s)
+             /\ Line("extbeforewrapped", Wrap(0, 0, 0, s))
+
+Emit == IF fam = "fixed" THEN (ts = <<>> => EmitFixed)
+        ELSE IF fam = "ext" THEN (fmt = "lz11" => EmitExt)
+        ELSE EmitSeq
 =============================================================================
